@@ -6,10 +6,12 @@ use cbor_event::{
 use hex::FromHex;
 use serde_json;
 use std::fmt::Display;
-use std::{
-    collections::HashMap,
-    io::{BufRead, Seek, Write},
-};
+use std::io::{BufRead, Seek, Write};
+#[cfg(not(feature = "verif-hooks"))]
+use std::collections::HashMap;
+#[cfg(feature = "verif-hooks")]
+#[allow(unused_imports)]
+use crate::verif_hooks::{HashMap, SimNew};
 
 use super::*;
 use crate::error::{DeserializeError, DeserializeFailure};
